@@ -12,6 +12,7 @@ import (
 type stmtSpec struct {
 	kind  string // simple | comment | blank | if | switch | for | foreach | while | do | try | sync
 	text  string // simple / comment: the line
+	lam   int    // simple: number of explicitly typed lambda parameters on the line
 	h     int    // if / while: number of lines the parenthesised condition spans (>= 1)
 	own   bool   // if: the keyword stands alone on the line before the '('
 	noBr  bool   // if: one simple statement without braces, no else
@@ -39,8 +40,9 @@ type methodSpec struct {
 	brace   string // same | next
 	oneLine bool   // getter/setter on one line
 	body    []stmtSpec
-	target  int // wanted closeLine-startLine (0: natural)
-	lead    int // 0 nothing, 1 blank line, 2 line comment, 3 Javadoc block before the method
+	target  int  // wanted closeLine-startLine (0: natural)
+	lead    int  // 0 nothing, 1 blank line, 2 line comment, 3 Javadoc block before the method
+	split   bool // interface methods only: modifiers / own type-parameter list on the line above the return type
 }
 
 func (m *methodSpec) hasBody() bool { return m.form != "abstract" && m.form != "iface-abstract" }
@@ -70,6 +72,7 @@ type bodyOut struct {
 	conds [][3]int // top-level ifs: relative (ifLine, startLine, endLine), 0-based into lines
 	decoy []int    // relative '(' lines of conditions that are not top-level if conditions
 	tall  int
+	lam   int
 	tIf   int
 	tSw   int
 	nIf   int
@@ -130,6 +133,7 @@ func (rd *renderer) stmt(s *stmtSpec, ind string, top bool, out *bodyOut) {
 		add("")
 	case "simple", "comment":
 		add(ind + s.text)
+		out.lam += s.lam
 	case "if":
 		h := s.h
 		if h < 1 {
@@ -321,6 +325,30 @@ func filler(r *run.Rand) stmtSpec {
 	return stmtSpec{kind: "simple", text: "acc = (acc + " + n + ") % 97;"}
 }
 
+// lambdaStmt is a one-line local declaration initialised with an expression lambda. typed > 0: the lambda declares
+// the types of its `typed` parameters (the grammar then uses the same rule as for a method's parameter list); typed ==
+// 0: inferred parameter types (decoy). Lambda bodies are expressions only, so no statement hides inside them.
+func lambdaStmt(r *run.Rand, typed int, seq int) stmtSpec {
+	v := "fn" + strconv.Itoa(seq)
+	k := strconv.Itoa(r.Range(2, 9))
+	switch typed {
+	case 0:
+		if r.Bool() {
+			return stmtSpec{kind: "simple", text: "java.util.function.BiFunction<Integer, Integer, Integer> " + v + " = (lx, ly) -> lx + ly * " + k + ";"}
+		}
+		return stmtSpec{kind: "simple", text: "java.util.function.Function<Integer, Integer> " + v + " = lz -> lz * " + k + ";"}
+	case 1:
+		mod := r.Pick([]string{"", "final "})
+		return stmtSpec{kind: "simple", lam: 1, text: "java.util.function.Function<Integer, Integer> " + v + " = (" + mod + "Integer lz) -> lz * " + k + ";"}
+	case 2:
+		if r.Bool() {
+			return stmtSpec{kind: "simple", lam: 2, text: "java.util.function.BiFunction<Integer, Integer, Integer> " + v + " = (Integer lx, Integer ly) -> lx + ly * " + k + ";"}
+		}
+		return stmtSpec{kind: "simple", lam: 2, text: "java.util.function.BinaryOperator<String> " + v + " = (final String lx, String ly) -> lx + ly;"}
+	}
+	return stmtSpec{kind: "simple", lam: 3, text: "java.util.Comparator<String> " + v + " = java.util.Comparator.comparing((String lx) -> lx.length()).thenComparing((String ly, String lz) -> ly.compareTo(lz));"}
+}
+
 type writer struct {
 	lines []string
 }
@@ -353,7 +381,17 @@ func (rd *renderer) renderMethod(w *writer, ms *methodSpec, ind string) Method {
 		head += " "
 	}
 	if ms.generic {
-		head += "<T> "
+		if ms.split {
+			head += "<T extends Comparable<T>> "
+		} else {
+			head += "<T> "
+		}
+	}
+	splitLine := 0
+	if ms.split && strings.HasPrefix(ms.form, "iface-") && strings.TrimSpace(head) != "" && !ms.oneLine {
+		// the declaration starts here: `default <T extends Comparable<T>>` / newline / `T pick(…) {`
+		splitLine = w.add(ind + strings.TrimSpace(head))
+		head = ""
 	}
 	head += ms.ret + " " + ms.name + "("
 	var params []string
@@ -408,6 +446,9 @@ func (rd *renderer) renderMethod(w *writer, ms *methodSpec, ind string) Method {
 		}
 		w.add(ind + tail)
 	}
+	if splitLine > 0 {
+		m.StartLine, m.HeadSplit = splitLine, true
+	}
 	if !ms.hasBody() {
 		return m
 	}
@@ -454,6 +495,7 @@ func (rd *renderer) renderMethod(w *writer, ms *methodSpec, ind string) Method {
 	m.CloseLine = w.add(ind + "}")
 	m.TopIfs, m.TopSwitches = out.tIf, out.tSw
 	m.NestedIfs, m.NestedSwitches, m.ElseIfs, m.TallDecoys = out.nIf, out.nSw, out.eIf, out.tall
+	m.TypedLambdaParams = out.lam
 	for _, c := range out.conds {
 		m.Conds = append(m.Conds, Cond{IfLine: bodyFirst + c[0], StartLine: bodyFirst + c[1], EndLine: bodyFirst + c[2]})
 	}
